@@ -363,8 +363,12 @@ def residue_string(draw, n, acgt_only=False):
 FASTA_NAME_ALPHABET = "abcdefgXYZ0123456789_-.:|#+=@/é"
 
 
+EXOTIC_DESC = [" caf\xe9 latin-1", "\t\xff\xfe raw bytes", " a\xa0b", " \x85next"]
+EXOTIC_NAME_PARTS = ["\u00a0", "\x1f", "\u2003", "\x1c"]
+
+
 @st.composite
-def fasta_record(draw, idx, acgt_only=False, max_lines=12, min_len=0):
+def fasta_record(draw, idx, acgt_only=False, max_lines=12, min_len=0, exotic_headers=False):
     width = draw(st.sampled_from(WIDTHS))
     cls = draw(st.integers(0, 9))
     if cls == 0:
@@ -386,14 +390,20 @@ def fasta_record(draw, idx, acgt_only=False, max_lines=12, min_len=0):
     base = draw(st.text(alphabet=FASTA_NAME_ALPHABET, min_size=1, max_size=8))
     name = f"{base}{idx}"  # unique by construction
     desc = draw(st.sampled_from(["", "", " len=5 desc", "\tx y", "  two spaces"]))
+    if exotic_headers and draw(st.integers(0, 3)) == 0:
+        # descriptions are written as latin-1 (not valid UTF-8); names may contain characters that are
+        # white space for str.split() but not for faidx / bytes.split()
+        desc = draw(st.sampled_from(EXOTIC_DESC))
+        if draw(st.booleans()):
+            name = f"{base}{draw(st.sampled_from(EXOTIC_NAME_PARTS))}{idx}"
     eol = draw(st.sampled_from(["\n", "\n", "\r\n"]))
     return [name, desc, seq, width, eol]
 
 
 @st.composite
-def fasta_file(draw, max_records=6, acgt_only=False, max_lines=12, min_len=0, final_newline=None):
+def fasta_file(draw, max_records=6, acgt_only=False, max_lines=12, min_len=0, final_newline=None, exotic_headers=False):
     n = draw(st.integers(1, max_records))
-    records = [draw(fasta_record(i + 1, acgt_only=acgt_only, max_lines=max_lines, min_len=min_len)) for i in range(n)]
+    records = [draw(fasta_record(i + 1, acgt_only=acgt_only, max_lines=max_lines, min_len=min_len, exotic_headers=exotic_headers)) for i in range(n)]
     fn = draw(st.sampled_from([True, True, False])) if final_newline is None else final_newline
     return {"records": records, "final_newline": fn}
 
@@ -401,7 +411,7 @@ def fasta_file(draw, max_records=6, acgt_only=False, max_lines=12, min_len=0, fi
 def fasta_bytes(plain) -> bytes:
     out = []
     for name, desc, seq, width, eol in plain["records"]:
-        out.append(f">{name}{desc}{eol}".encode())
+        out.append(f">{name}".encode() + desc.encode("latin-1") + eol.encode())
         for i in range(0, len(seq), width):
             out.append(seq[i : i + width].encode("latin-1") + eol.encode())
     data = b"".join(out)
@@ -461,6 +471,14 @@ def tagged_case(
         inp = draw(input_assembly(t, max_scaffolds=max_scaffolds, max_contigs=max_contigs, shape="fasta",
                                   min_scaffolds=2, strands="fwd"))
         for i, sc in enumerate(inp):
+            if i >= 2 and draw(st.integers(0, 4)) == 0:
+                # a scaffold without a haplotype prefix (organelle, unassigned): belongs to no haplotype
+                new = draw(st.sampled_from(["MT{}", "scaffold_{}", "unassigned{}"])).format(90 + i)
+                for r in sc[1]:
+                    if r[0] == "F":
+                        r[1] = new
+                sc[0] = new
+                continue
             hp = haps[i % 2] if i < 2 else draw(st.sampled_from(haps))
             hp = draw(st.sampled_from([hp, hp.upper(), hp.lower()]))
             new = f"{hp}_scaffold_{i + 1}"
